@@ -74,9 +74,9 @@ def pad_chart(ch, rng, target_states):
 def make_case(seed, dm='lua', size=None):
     rng = random.Random(seed)
     if seed < 0:
-        ch, hist = C.gen_done_chart(-seed)       # done.state family
+        ch, hist = C.gen_done_chart(-seed) if seed % 2 == 0 else C.gen_hist_chart(-seed)      # done.state family / history family
     else:
-        ch, hist = C.gen_chart(seed, data=True, errors=False)
+        ch, hist = C.gen_chart(seed, data=True, errors=False, dataexpr=False, orcond=False)   # the C scaffold's built-in integer datamodel has no 'or'
     if size: pad_chart(ch, rng, size)
     return ch, hist
 
